@@ -139,7 +139,8 @@ func (o *vFold) agrees(r zed.Value) bool {
 	id := r.Type().ID()
 	switch o.t {
 	case vtFloat64:
-		return zed.IsFloat(id) && r.Float() == o.fl
+		// NaN (e.g. the sum of +Inf and -Inf) agrees with NaN
+		return zed.IsFloat(id) && (r.Float() == o.fl || (r.Float() != r.Float() && o.fl != o.fl))
 	case vtUint64:
 		return zed.IsUnsigned(id) && r.Uint() == o.u
 	}
